@@ -95,6 +95,11 @@ func genCaseC01(t *rapid.T) *Case {
 	if len(c.Warm) == 0 && rapid.IntRange(0, 3).Draw(t, "tightDepth") == 0 {
 		c.TightDepth = rapid.IntRange(1, 2).Draw(t, "tightDepthPlus")
 	}
+	if rapid.IntRange(0, 3).Draw(t, "resolvedBefore") == 0 {
+		// the parsed request was resolved before with other values of its variables (defaulted ones
+		// given a value too): the data is that of THIS request's variables
+		c.PrimeVars = AltVars(t, s, d, "prime")
+	}
 	// operation name
 	var names []string
 	for _, o := range d.Ops {
